@@ -24,7 +24,9 @@ THEOREMS_RETRY = ['RB.DB.c17_retry_bound', 'RB.DB.c17_retry_waits', 'RB.DB.c17_c
 THEOREMS_ENC = ['RB.DB.c17_decode_encode_v1', 'RB.DB.c17_decode_encode_v2', 'RB.DB.c17_payload_carries_run']
 
 CFG_REPO_URL = D.CFG_REPO_URL
-POINT_SCRIPTS = {'ok': ['ok'], 'refused': ['refused'] * 5, '5xx': ['5xx'] * 5, '4xx': ['4xx']}
+POINT_SCRIPTS = {'ok': ['ok'], 'refused': ['refused'] * 5, '5xx': ['5xx'] * 5, '4xx': ['4xx'],
+                 # the server takes the request and never answers completely (reset, time-out, broken pipe, …)
+                 'dropped': None}
 CRITERIA = [('mem', 'kb'), ('gc', 'ms'), ('compile', 'ms'), ('mem', 'MB'), ('alloc', 'bytes')]
 
 
@@ -65,6 +67,12 @@ class DataGen(object):
         return rng.choice([rng.uniform(0.001, 1e6), float(rng.randint(0, 10 ** 6)), rng.randint(1, 8000) / 8.0])
 
 
+def point_script(rng, o):
+    if o == 'dropped':
+        return [rng.choice(D.DROPPED) for _ in range(5)]
+    return list(POINT_SCRIPTS[o])
+
+
 def gen_enumerated(rng, outcomes, v2):
     """one scenario for a sequence of per-point outcomes; the last point is `close`"""
     n_runs = rng.randint(1, 4)
@@ -73,14 +81,14 @@ def gen_enumerated(rng, outcomes, v2):
     for o in outcomes[:-1]:
         dps = [g.dp() for _ in range(rng.randint(1, 3))]
         steps.append({'dps': dps, 'by': dps[-1]['run'], 'gap': rng.choice([30, 31, 45, 600]),
-                      'script': list(POINT_SCRIPTS[o]),
+                      'script': point_script(rng, o),
                       'statuses': {'ok': rng.choice([200, 200, 201, 202, 204])},
                       'during': [g.dp() for _ in range(rng.randint(1, 2))] if rng.random() < 0.3 else []})
     last = [g.dp() for _ in range(rng.randint(0 if steps else 1, 2))]
     steps.append({'dps': last, 'by': None, 'gap': 0, 'script': []})
     return {'v2': v2, 'n_runs': n_runs, 'prior': None, 'start': stamp(rng), 'load_gap': 0, 'load_script': ['ok'],
             'branch': rng.choice([None, 'verif/feature-x', 'v1.2.3']),
-            'steps': steps, 'close_script': list(POINT_SCRIPTS[outcomes[-1]])}
+            'steps': steps, 'close_script': point_script(rng, outcomes[-1])}
 
 
 def stamp(rng):
@@ -91,7 +99,7 @@ def stamp(rng):
 
 def gen_script(rng):
     kind = rng.choice(['ok', 'fail-all', 'recover', 'client-late', 'type', 'exact5', 'short'])
-    r = lambda: rng.choice(['refused', '5xx'])  # noqa: E731
+    r = lambda: rng.choice(['refused', '5xx', '5xx'] + list(D.DROPPED))  # noqa: E731
     if kind == 'ok':
         return ['ok']
     if kind == 'fail-all':
@@ -148,6 +156,11 @@ def gen_random(rng, rich=False, max_points=5):
 
 
 # ------------------------------------------------------------------ running one scenario on the real code
+def mk(script):
+    """a script of concrete transport faults as the attempt classes of the Lean model"""
+    return [D.model_kind(k) for k in script]
+
+
 def dp_event(d):
     return {'k': 'persist', 'run': d['run'],
             'dp': {'in': d['in'], 'it': d['it'],
@@ -223,7 +236,7 @@ def execute(ck, sc, idx, server=None, refused_port=None):
                 for d in (sc.get('prior') or {}).get('dps', []):
                     events.append(dp_event(d))
                     timeline.append(('dp', d))
-                events.append({'k': 'send', 'now': now, 'script': sc['load_script']})
+                events.append({'k': 'send', 'now': now, 'script': mk(sc['load_script'])})
                 timeline.append(('point', w.points[-1]))
                 for i, st in enumerate(sc['steps']):
                     for d in st['dps']:
@@ -241,7 +254,7 @@ def execute(ck, sc, idx, server=None, refused_port=None):
                     s.completed(st['by'])
                     w.end_point()
                     fl.finish()
-                    add_point_events(events, timeline, {'k': 'send', 'now': now, 'script': st['script']}, w.points[-1], fl)
+                    add_point_events(events, timeline, {'k': 'send', 'now': now, 'script': mk(st['script'])}, w.points[-1], fl)
                 w.begin_point('close', sc['close_script'], sc.get('close_statuses'))
                 fl = D.InFlight(s, sc.get('close_during') or [])
                 if fl.dps:
@@ -249,7 +262,7 @@ def execute(ck, sc, idx, server=None, refused_port=None):
                 s.close()
                 w.end_point()
                 fl.finish()
-                add_point_events(events, timeline, {'k': 'close', 'script': sc['close_script']}, w.points[-1], fl)
+                add_point_events(events, timeline, {'k': 'close', 'script': mk(sc['close_script'])}, w.points[-1], fl)
                 # probe: what is still held?  (a harness-only extra `close()` of the back end)
                 probe_script = ['refused'] * 6 if refused_port else ['ok']
                 w.begin_point('probe', probe_script)
@@ -551,23 +564,37 @@ def search_neighbourhood(ck, sc, server, refused_port):
 
 
 # ------------------------------------------------------------------ retry policy alone
-def check_retries(ck, n):
+def check_retries(ck, n, only=None):
     """the real `_send_with_retries` against `sendWithRetries` on scripts of length 0..7"""
     from rebench.rebenchdb import ReBenchDB
     from rebench.ui import TestDummyUI
     rng = ck.rng
-    scripts = [list(s) for k in range(0, 3) for s in itertools.product(['ok', 'refused', '5xx', '4xx', 'type'], repeat=k)]
+    scripts = [list(s) for k in range(0, 3) for s in itertools.product(['ok', 'refused', '5xx', '4xx', 'type', 'reset', 'incomplete'], repeat=k)]
     scripts += [['refused'] * k + [e] for k in range(0, 7) for e in ('ok', '4xx', 'type', '5xx')]
+    scripts += [[d] * k + [e] for d in D.DROPPED for k in (1, 4, 5) for e in ('ok', '4xx')]
     while len(scripts) < n:
-        scripts.append([rng.choice(['ok', 'refused', '5xx', '5xx', '4xx', 'type']) for _ in range(rng.randint(1, 7))])
-    answers = ck.model([{'op': 'c17.retries', 'script': s} for s in scripts])
+        scripts.append([rng.choice(['ok', 'refused', '5xx', '5xx', '4xx', 'type'] + list(D.DROPPED)) for _ in range(rng.randint(1, 7))])
+    if only is not None:
+        scripts = [list(x) for x in only]
+    answers = ck.model([{'op': 'c17.retries', 'script': mk(s)} for s in scripts])
     for s, ans in zip(scripts, answers):
         with D.World(False, 'r', 'st') as w:
             db = ReBenchDB('http://127.0.0.1:9', 'p', 'e', TestDummyUI())
             w.begin_point('r', s)
-            ok, _resp = db._send_with_retries(b'{}', 'http://127.0.0.1:9/results')
+            raised = None
+            try:
+                ok, _resp = db._send_with_retries(b'{}', 'http://127.0.0.1:9/results')
+            except Exception as e:  # noqa: a transport fault must end as (False, None), never as an exception
+                ok, raised = False, type(e).__name__
             w.end_point()
             impl = {'success': bool(ok), 'used': len(w.points[-1]['attempts']), 'waits': [int(x) for x in w.points[-1]['waits']]}
+        if raised:
+            ck.case()
+            ck.disagree('c17.retries: ReBenchDB._send_with_retries raised', {'script': s}, {'raised': raised}, ans, THEOREMS_RETRY)
+            ck.oracle_fail('transmission_no_traceback', {'script': s},
+                           {'exception': raised, 'attempts': [a['kind'] for a in w.points[-1]['attempts']]},
+                           signature={'clause': 'transmission_no_traceback', 'exception': raised, 'raised_in': '_send_with_retries'})
+            continue
         ck.count('retry-script-len:%d' % len(s))
         ck.case(nontrivial_key=('r', tuple(s)) if len(s) >= 2 else None)
         if impl != ans:
@@ -609,8 +636,8 @@ def run(ck):
     # exhaustive outcome sequences
     batch = []
     for n in range(1, max_pts + 1):
-        for seq in itertools.product(['ok', 'refused', '5xx', '4xx'], repeat=n):
-            if n >= 6 and rng.random() < 0.5:
+        for seq in itertools.product(['ok', 'refused', '5xx', '4xx', 'dropped'], repeat=n):
+            if (n >= 6 and rng.random() < 0.8) or (n == 5 and rng.random() < 0.5):
                 continue   # thorough: half of the 4096 length-6 sequences per API version per run
             for v2 in (False, True):
                 batch.append(gen_enumerated(rng, seq, v2))
@@ -636,7 +663,8 @@ def http_slice(ck, n):
             sc = gen_random(rng, rich=rng.random() < 0.3, max_points=3)
             # a live server cannot refuse and does not raise TypeError
             def clean(script):
-                out = [('5xx' if k in ('refused', 'type') else k) for k in script]
+                out = [('5xx' if k in ('refused', 'type') else 'disconnected' if k in ('timeout', 'brokenpipe') else k)
+                       for k in script]
                 return (out + ['5xx'] * 6)[:max(6, len(out))]
             sc['load_script'] = clean(sc['load_script'])
             sc['close_script'] = clean(sc['close_script'])
@@ -668,6 +696,6 @@ def replay(ck, data):
     inp = data['input']
     sc = inp.get('scenario')
     if sc is None and 'script' in inp:
-        check_retries(ck, 0)
+        check_retries(ck, 0, only=[inp['script']])
         return
     check_batch(ck, [sc], tag='replay')
